@@ -57,7 +57,7 @@ def run(ctx):
     ctx.cov["rule"] = ("case = (document sequence, partition into <=3 fractions, query with one aggregation and a histogram interval). "
                        "exhaustive: every sequence of <=MaxDocs docs over XDocs x every assignment to parts x every XRaw shape; "
                        "simulation: <=5 docs over the value palette (negatives, decimals, exponent), 7 functions, dyadic quantile lists, "
-                       "intervals {0,2,3}; the exhaustive cases are replayed a second time with every value multiplied by 1e19 (outside the int64 range). Each case: searcher fpi=1, fpi=all, manual reverse merge, proxy path, the public API (ComplexSearch with histogram, GetAggregation; through a real proxyapi.Ingestor over localhost gRPC); pairs of cases with the same query are also sent as one request carrying both aggregations in both orders (searcher and both API entry points). non-trivial = expected buckets non-empty")
+                       "intervals {0,2,3}; the exhaustive cases are replayed a second time with every value multiplied by 1e19 (outside the int64 range). Half of the cases ask in ascending, half in descending order (the order of the IDs is no part of a histogram or an aggregation). Each case: searcher fpi=1, fpi=all, manual reverse merge, proxy path, the public API (ComplexSearch with histogram, GetAggregation; through a real proxyapi.Ingestor over localhost gRPC); pairs of cases with the same query are also sent as one request carrying both aggregations in both orders (searcher and both API entry points). non-trivial = expected buckets non-empty")
     ctx.assumptions += ["quantile palette is dyadic (0,1/4,1/2,3/4,1) so that the code's float index arithmetic is exact",
                         "per-group not-exists counters of time-binned (interval>0) field+group aggregations are not compared (the store does not bin them; the property does not define them)",
                         "legacy `_not_exists` bucket of count must equal NotExists and is otherwise ignored",
